@@ -48,6 +48,7 @@ structure Cfg where
   extJoin : Bool
   chghost : Bool
   whox : Bool
+  batch : Bool
   /-- the identity the bot registers with -/
   botNick : Str
   botIdent : Str
